@@ -20,13 +20,18 @@ import (
 	"sort"
 	"strconv"
 	"strings"
+	"time"
 
 	"github.com/bronlabs/bron-crypto/pkg/base/algebra"
 	"github.com/bronlabs/bron-crypto/pkg/base/curves/edwards25519"
 	"github.com/bronlabs/bron-crypto/pkg/base/curves/k256"
 	"github.com/bronlabs/bron-crypto/pkg/base/curves/p256"
 	"github.com/bronlabs/bron-crypto/pkg/base/curves/pairable/bls12381"
+	"github.com/bronlabs/bron-crypto/pkg/base/ct"
+	"github.com/bronlabs/bron-crypto/pkg/base/nt/crt"
+	"github.com/bronlabs/bron-crypto/pkg/base/nt/modular"
 	"github.com/bronlabs/bron-crypto/pkg/base/nt/num"
+	"github.com/bronlabs/bron-crypto/pkg/base/nt/numct"
 	"github.com/bronlabs/bron-crypto/pkg/base/nt/znstar"
 	"github.com/bronlabs/bron-crypto/pkg/encryption/elgamal"
 	"github.com/bronlabs/bron-crypto/pkg/encryption/paillier"
@@ -48,6 +53,7 @@ func bmod(x, n *big.Int) *big.Int { return new(big.Int).Mod(x, n) }
 // ---------------------------------------------------------------------------------------
 
 type pkey struct {
+	caller  bool // primes supplied by the caller, not by the library's generators
 	flavour string
 	bits    int
 	p, q    *big.Int
@@ -163,7 +169,22 @@ func loadKeys(want []keySpec, res *vh.Result) []*pkey {
 	var out []*pkey
 	dirty := false
 	for _, w := range want {
-		e, ok := have[w]
+		base := keySpec{strings.TrimSuffix(w.flavour, "-swap"), w.bits}
+		swapped := base != w
+		e, ok := have[base]
+		if !ok && callerSupplied(base.flavour) {
+			// primes chosen by the caller (not by the library's generators): found once with
+			// math/big from a fixed stream and stored
+			e.p, e.q = callerPrimes(base.flavour)
+			ok = true
+			have[base] = e
+			order = append(order, fmt.Sprintf("%s %d %s %s", base.flavour, base.bits, zh(e.p), zh(e.q)))
+			dirty = true
+			res.Note("constructed missing caller-supplied %s key into %s", base.flavour, path)
+		}
+		if ok && swapped {
+			e = ent{e.q, e.p}
+		}
 		if !ok {
 			var g *znstar.PaillierGroupKnownOrder
 			var err error
@@ -184,10 +205,16 @@ func loadKeys(want []keySpec, res *vh.Result) []*pkey {
 			dirty = true
 			res.Note("generated missing %s %d-bit Paillier key into %s", w.flavour, w.bits, path)
 		}
+		if base.flavour == "hilow1024" { // below the floor: only used for the refusal case
+			n := new(big.Int).Mul(e.p, e.q)
+			out = append(out, &pkey{flavour: w.flavour, p: e.p, q: e.q, N: n, bits: n.BitLen()})
+			continue
+		}
 		k, err := buildKey(w.flavour, e.p, e.q)
 		if err != nil {
 			panic(fmt.Sprintf("stored %s %d key rejected by the library: %v", w.flavour, w.bits, err))
 		}
+		k.caller = callerSupplied(base.flavour)
 		out = append(out, k)
 	}
 	if dirty {
@@ -195,6 +222,58 @@ func loadKeys(want []keySpec, res *vh.Result) []*pkey {
 		os.WriteFile(path, []byte(strings.Join(order, "\n")+"\n"), 0o644)
 	}
 	return out
+}
+
+// caller-supplied prime pairs: admissible for NewPaillierGroup + New(Legacy)SecretKey but outside
+// what the library's own generators produce (which keep both primes above sqrt(2)*2^(k-1)).
+func callerSupplied(flavour string) bool {
+	switch flavour {
+	case "unbal", "sqrt2", "lowlow", "hilow", "hilow1024":
+		return true
+	}
+	return false
+}
+
+func nextPrime(x *big.Int) *big.Int {
+	c := new(big.Int).Set(x)
+	if c.Bit(0) == 0 {
+		c.Add(c, one)
+	}
+	for !c.ProbablyPrime(32) {
+		c.Add(c, two)
+	}
+	return c
+}
+
+func callerPrimes(flavour string) (p, q *big.Int) {
+	r := vh.NewRng(0, "C16", "caller-primes/"+flavour, 0)
+	pow2 := func(e uint) *big.Int { return new(big.Int).Lsh(one, e) }
+	small := func() *big.Int { return r.BigBits(64) }
+	scale := func(num, den int64, e uint) *big.Int { // num/den * 2^e
+		x := new(big.Int).Mul(big.NewInt(num), pow2(e))
+		return x.Div(x, big.NewInt(den))
+	}
+	switch flavour {
+	case "unbal": // p ~ 1.99 * 2^1023, q ~ 1.40 * 2^1023 < sqrt(2) * 2^1023 <= p ; N has 2048 bits
+		p = nextPrime(new(big.Int).Add(scale(199, 100, 1023), small()))
+		q = nextPrime(new(big.Int).Add(scale(140, 100, 1023), small()))
+	case "sqrt2": // either side of sqrt(2) * 2^1023, N barely 2048 bits
+		sq := new(big.Int).Sqrt(pow2(2047))
+		p = nextPrime(new(big.Int).Add(sq, pow2(1000)))
+		q = nextPrime(new(big.Int).Sub(sq, pow2(999)))
+	case "lowlow": // both just above 2^1024 (1025-bit primes), N barely 2049 bits
+		p = nextPrime(new(big.Int).Add(pow2(1024), small()))
+		q = nextPrime(new(big.Int).Add(pow2(1024), new(big.Int).Lsh(small(), 3)))
+	case "hilow": // just below 2^1025 and just above 2^1024
+		p = nextPrime(new(big.Int).Sub(pow2(1025), pow2(1000)))
+		q = nextPrime(new(big.Int).Add(pow2(1024), small()))
+	case "hilow1024": // just below 2^1024 and just above 2^1023: N has only 2047 bits (refused by the floor)
+		p = nextPrime(new(big.Int).Sub(pow2(1024), pow2(1000)))
+		q = nextPrime(new(big.Int).Add(pow2(1023), small()))
+	default:
+		panic("callerPrimes " + flavour)
+	}
+	return p, q
 }
 
 // ---------------------------------------------------------------------------------------
@@ -1211,6 +1290,302 @@ func (k *pkey) textbookCase(id string, m, r *big.Int, sk bool) *testCase {
 }
 
 // ---------------------------------------------------------------------------------------
+// lower layers with arbitrary (small, unbalanced) primes: modular.OddPrimeSquareFactors,
+// modular.OddPrimeFactors, crt.Params, znstar.PaillierGroup (no key-size floor there)
+// ---------------------------------------------------------------------------------------
+
+func cnat(x *big.Int) *numct.Nat {
+	n := x.BitLen()
+	if n == 0 {
+		n = 1
+	}
+	return numct.NewNatFromBig(x, n)
+}
+
+// lowCase: one operation of the CRT arithmetic on a list of inputs. items: x (rec1/rec2: the value
+// whose residues are recombined; inv*/ton: the argument) or (a, b) (exp*: base, exponent; mul1).
+func lowCase(id string, p, q *big.Int, op string, items [][2]*big.Int) *testCase {
+	N := new(big.Int).Mul(p, q)
+	N2 := new(big.Int).Mul(N, N)
+	p2, q2 := new(big.Int).Mul(p, p), new(big.Int).Mul(q, q)
+	tc := &testCase{class: "lowlevel/" + op, what: "C16_sk_ops_equal_pk_ops at the modular/crt layer (" + op + "): CRT path = math/big = model"}
+	var strs []string
+	sf, okc := modular.NewOddPrimeSquareFactors(cnat(p), cnat(q))
+	var g *znstar.PaillierGroupKnownOrder
+	if p.BitLen() == q.BitLen() {
+		g, _ = znstar.NewPaillierGroup(natPlus(p), natPlus(q))
+	}
+	for _, it := range items {
+		a, b := it[0], it[1]
+		impl, oracle, str := "", "", ""
+		pan := vh.Safely(func() {
+			if okc != ct.True {
+				impl = "ERR"
+			}
+			var out numct.Nat
+			unit := new(big.Int).GCD(nil, nil, a, N).Cmp(one) == 0 && a.Sign() > 0
+			// the same operation through znstar's known-order and unknown-order group elements
+			zn := func(f func(known *znstar.PaillierGroupElementKnownOrder, unknown *znstar.PaillierGroupElementUnknownOrder) (*big.Int, *big.Int)) {
+				if g == nil || !unit || impl == "ERR" {
+					return
+				}
+				e, err := g.FromNatCT(cnat(bmod(a, N2)))
+				if err != nil {
+					impl += "|znstar-refused"
+					return
+				}
+				x, y := f(e, e.ForgetOrder())
+				if x == nil || y == nil || zh(x) != impl || zh(y) != impl {
+					hx := func(v *big.Int) string {
+						if v == nil {
+							return "ERR"
+						}
+						return zh(v)
+					}
+					impl += "|znstar-known-order=" + hx(x) + "|znstar-unknown-order=" + hx(y)
+				}
+			}
+			switch op {
+			case "rec2":
+				str = zh(bmod(a, p2)) + ":" + zh(bmod(a, q2))
+				oracle = zh(a)
+				if impl == "" {
+					impl = zh(sf.CrtModN2.Recombine(cnat(bmod(a, p2)), cnat(bmod(a, q2))).Big())
+				}
+			case "rec1":
+				str = zh(bmod(a, p)) + ":" + zh(bmod(a, q))
+				oracle = zh(a)
+				if impl == "" {
+					impl = zh(sf.CrtModN.Params.Recombine(cnat(bmod(a, p)), cnat(bmod(a, q))).Big())
+				}
+			case "exp2":
+				str = zh(a) + ":" + zh(b)
+				oracle = zh(new(big.Int).Exp(a, b, N2))
+				if impl == "" {
+					sf.ModExp(&out, cnat(a), cnat(b))
+					impl = zh(out.Big())
+					zn(func(kn *znstar.PaillierGroupElementKnownOrder, un *znstar.PaillierGroupElementUnknownOrder) (*big.Int, *big.Int) {
+						z, err := num.Z().FromBig(b)
+						if err != nil {
+							return nil, nil
+						}
+						return kn.ScalarOp(z).Value().Big(), un.ScalarOp(z).Value().Big()
+					})
+				}
+			case "exp1":
+				str = zh(a) + ":" + zh(b)
+				oracle = zh(new(big.Int).Exp(a, b, N))
+				if impl == "" {
+					sf.CrtModN.ModExp(&out, cnat(a), cnat(b))
+					impl = zh(out.Big())
+				}
+			case "mul1":
+				str = zh(a) + ":" + zh(b)
+				oracle = zh(bmod(new(big.Int).Mul(a, b), N))
+				if impl == "" {
+					sf.CrtModN.ModMul(&out, cnat(a), cnat(b))
+					impl = zh(out.Big())
+				}
+			case "inv2", "inv1":
+				str = zh(a)
+				m := N2
+				if op == "inv1" {
+					m = N
+				}
+				if inv := new(big.Int).ModInverse(a, m); inv != nil {
+					oracle = zh(inv)
+				} else {
+					oracle = "ERR"
+				}
+				if impl == "" {
+					var ok ct.Bool
+					if op == "inv2" {
+						ok = sf.ModInv(&out, cnat(a))
+					} else {
+						ok = sf.CrtModN.ModInv(&out, cnat(a))
+					}
+					if ok != ct.True {
+						impl = "ERR"
+					} else {
+						impl = zh(out.Big())
+						if op == "inv2" {
+							zn(func(kn *znstar.PaillierGroupElementKnownOrder, un *znstar.PaillierGroupElementUnknownOrder) (*big.Int, *big.Int) {
+								x, e1 := kn.TryOpInv()
+								y, e2 := un.TryOpInv()
+								if e1 != nil || e2 != nil {
+									return nil, nil
+								}
+								return x.Value().Big(), y.Value().Big()
+							})
+						}
+					}
+				}
+			case "ton":
+				str = zh(a)
+				if unit {
+					oracle = zh(new(big.Int).Exp(a, N, N2))
+				}
+				if impl == "" {
+					sf.ExpToN(&out, cnat(a))
+					impl = zh(out.Big())
+					zn(func(kn *znstar.PaillierGroupElementKnownOrder, un *znstar.PaillierGroupElementUnknownOrder) (*big.Int, *big.Int) {
+						x, e1 := g.NthResidue(kn)
+						y, e2 := g.ForgetOrder().NthResidue(un)
+						if e1 != nil || e2 != nil {
+							return nil, nil
+						}
+						return x.Value().Big(), y.Value().Big()
+					})
+				}
+			default:
+				panic("bad low op " + op)
+			}
+		})
+		if pan != "" {
+			impl = "PANIC"
+		}
+		strs = append(strs, str)
+		tc.impl = append(tc.impl, impl)
+		tc.oracle = append(tc.oracle, oracle)
+		tc.names = append(tc.names, "lowlevel-"+op)
+	}
+	tc.line = fmt.Sprintf("C %s %s %s %s %s", id, zh(p), zh(q), op, strings.Join(strs, ","))
+	tc.shrink = func(n int) string { return fmt.Sprintf("C %s %s %s %s %s", id, zh(p), zh(q), op, strs[n]) }
+	return tc
+}
+
+// crtCase: crt.NewParamsExtended(P, Q).Recombine for arbitrary coprime moduli of different lengths
+func crtCase(id string, P, Q *big.Int, xs []*big.Int) *testCase {
+	tc := &testCase{class: "lowlevel/crt", what: "crt.Params.Recombine(x mod P, x mod Q) = x (crt_unique / recombine_eq)"}
+	var strs []string
+	var prm *crt.ParamsExtended
+	okc := ct.False
+	pan0 := vh.Safely(func() {
+		pm, ok1 := numct.NewModulus(cnat(P))
+		qm, ok2 := numct.NewModulus(cnat(Q))
+		if ok1 == ct.True && ok2 == ct.True {
+			prm, okc = crt.NewParamsExtended(pm, qm)
+		}
+	})
+	for _, x := range xs {
+		mp, mq := bmod(x, P), bmod(x, Q)
+		impl := "ERR"
+		pan := pan0
+		if pan == "" && okc == ct.True {
+			pan = vh.Safely(func() { impl = zh(prm.Recombine(cnat(mp), cnat(mq)).Big()) })
+		}
+		if pan != "" {
+			impl = "PANIC"
+		}
+		strs = append(strs, zh(mp)+":"+zh(mq))
+		tc.impl = append(tc.impl, impl)
+		tc.oracle = append(tc.oracle, zh(x))
+		tc.names = append(tc.names, "lowlevel-crt-recombine")
+	}
+	tc.line = fmt.Sprintf("R %s %s %s %s", id, zh(P), zh(Q), strings.Join(strs, ","))
+	tc.shrink = func(n int) string { return fmt.Sprintf("R %s %s %s %s", id, zh(P), zh(Q), strs[n]) }
+	return tc
+}
+
+// lowLevelCases: small and unbalanced prime pairs in both orders; exhaustive where small
+func lowLevelCases(seed int64, stream string, thorough bool) []*testCase {
+	var out []*testCase
+	r := vh.NewRng(seed, "C16", stream+"/lowlevel", 0)
+	fixed := vh.NewRng(0, "C16", "lowlevel-primes", 0)
+	pow2 := func(e uint) *big.Int { return new(big.Int).Lsh(one, e) }
+	frac := func(num int64, e uint) *big.Int { // num/100 * 2^e + small
+		x := new(big.Int).Mul(big.NewInt(num), pow2(e))
+		x.Div(x, big.NewInt(100))
+		return x.Add(x, fixed.BigBits(int(e)/2))
+	}
+	pairs := [][2]*big.Int{
+		{big.NewInt(7), big.NewInt(5)}, {big.NewInt(13), big.NewInt(11)}, {big.NewInt(251), big.NewInt(181)},
+		{big.NewInt(251), big.NewInt(227)}, {big.NewInt(127), big.NewInt(67)},
+		{nextPrime(frac(199, 31)), nextPrime(frac(140, 31))},   // 32-bit, either side of sqrt(2)*2^31
+		{nextPrime(frac(199, 63)), nextPrime(frac(140, 63))},   // 64-bit, p ~ 1.99*2^63, q ~ 1.40*2^63
+		{nextPrime(frac(142, 63)), nextPrime(frac(141, 63))},   // 64-bit, both just around sqrt(2)*2^63
+		{nextPrime(frac(101, 63)), nextPrime(frac(199, 63))},   // 64-bit, just above 2^63 and just below 2^64
+		{nextPrime(frac(199, 255)), nextPrime(frac(140, 255))}, // 256-bit
+	}
+	n := 24
+	if thorough {
+		n = 400
+	}
+	for pi, pq := range pairs {
+		for o := 0; o < 2; o++ {
+			p, q := pq[o], pq[1-o]
+			id := fmt.Sprintf("%d.%d", pi, o)
+			N := new(big.Int).Mul(p, q)
+			N2 := new(big.Int).Mul(N, N)
+			unary := func(m *big.Int, exhaustiveBelow int64) [][2]*big.Int {
+				var xs [][2]*big.Int
+				if m.IsInt64() && m.Int64() <= exhaustiveBelow {
+					for x := int64(0); x < m.Int64(); x++ {
+						xs = append(xs, [2]*big.Int{big.NewInt(x), nil})
+					}
+					return xs
+				}
+				// the top of the range is where a lost high bit shows
+				xs = append(xs, [2]*big.Int{new(big.Int).Sub(m, one), nil}, [2]*big.Int{new(big.Int).Sub(m, two), nil}, [2]*big.Int{big.NewInt(1), nil})
+				for i := 0; i < n; i++ {
+					xs = append(xs, [2]*big.Int{r.BigBelow(m), nil})
+				}
+				return xs
+			}
+			binary := func(m *big.Int, ebits int) [][2]*big.Int {
+				var xs [][2]*big.Int
+				for i := 0; i < n; i++ {
+					b := r.BigBelow(m)
+					if i%7 == 3 {
+						b = new(big.Int).Mul(p, r.BigBelow(q)) // not coprime to p: full exponent branch
+					}
+					xs = append(xs, [2]*big.Int{b, r.BigBits(1 + r.Intn(ebits))})
+				}
+				return xs
+			}
+			exh := int64(2000)
+			if thorough {
+				exh = 70000
+			}
+			out = append(out,
+				lowCase(id, p, q, "rec2", unary(N2, exh)), lowCase(id, p, q, "rec1", unary(N, exh)),
+				lowCase(id, p, q, "inv2", unary(N2, exh)), lowCase(id, p, q, "inv1", unary(N, exh)),
+				lowCase(id, p, q, "ton", unary(N2, exh)),
+				lowCase(id, p, q, "exp2", binary(N2, 3*N2.BitLen())), lowCase(id, p, q, "exp1", binary(N, 3*N.BitLen())),
+				lowCase(id, p, q, "mul1", binary(N, N.BitLen())))
+		}
+	}
+	// crt.NewParamsExtended with arbitrary coprime moduli whose lengths differ by 0, 1 and several bits
+	mods := [][2]*big.Int{
+		{big.NewInt(49), big.NewInt(25)}, {big.NewInt(8191), big.NewInt(4099)}, {big.NewInt(1<<20 + 7), big.NewInt(1<<13 + 1)},
+		{new(big.Int).Add(pow2(2047), fixed.BigBits(2000)), new(big.Int).Add(pow2(2046), fixed.BigBits(2000))},
+		{new(big.Int).Sub(pow2(130), big.NewInt(5)), new(big.Int).Add(pow2(64), big.NewInt(13))},
+	}
+	for mi, pq := range mods {
+		if new(big.Int).GCD(nil, nil, pq[0], pq[1]).Cmp(one) != 0 {
+			pq[1] = nextPrime(pq[1])
+		}
+		for o := 0; o < 2; o++ {
+			P, Q := pq[o], pq[1-o]
+			M := new(big.Int).Mul(P, Q)
+			var xs []*big.Int
+			if M.IsInt64() && M.Int64() <= 2000 {
+				for x := int64(0); x < M.Int64(); x++ {
+					xs = append(xs, big.NewInt(x))
+				}
+			} else {
+				xs = append(xs, new(big.Int).Sub(M, one), new(big.Int).Sub(M, two), big.NewInt(0))
+				for i := 0; i < n; i++ {
+					xs = append(xs, r.BigBelow(M))
+				}
+			}
+			out = append(out, crtCase(fmt.Sprintf("m%d.%d", mi, o), P, Q, xs))
+		}
+	}
+	return out
+}
+
+// ---------------------------------------------------------------------------------------
 // ElGamal, through the exponent
 // ---------------------------------------------------------------------------------------
 
@@ -1780,6 +2155,41 @@ func caseFromLine(line string) *testCase {
 		other := keyByN(uz(f[4]))
 		m := other.oracleDecrypt(uz(f[5]))
 		return foreignCase(f[1], k, other, m, other.oracleNonce(uz(f[5]), m))
+	case "C":
+		var items [][2]*big.Int
+		p, q := uz(f[2]), uz(f[3])
+		for _, t := range strings.Split(f[5], ",") {
+			ab := strings.Split(t, ":")
+			switch f[4] {
+			case "rec2", "rec1":
+				// residues -> the value they stand for (math/big CRT)
+				P, Q := new(big.Int).Set(p), new(big.Int).Set(q)
+				if f[4] == "rec2" {
+					P.Mul(p, p)
+					Q.Mul(q, q)
+				}
+				h := new(big.Int).Sub(uz(ab[0]), uz(ab[1]))
+				h.Mul(h, new(big.Int).ModInverse(Q, P)).Mod(h, P)
+				items = append(items, [2]*big.Int{h.Mul(h, Q).Add(h, uz(ab[1])), nil})
+			default:
+				it := [2]*big.Int{uz(ab[0]), nil}
+				if len(ab) > 1 {
+					it[1] = uz(ab[1])
+				}
+				items = append(items, it)
+			}
+		}
+		return lowCase(f[1], p, q, f[4], items)
+	case "R":
+		P, Q := uz(f[2]), uz(f[3])
+		var xs []*big.Int
+		for _, t := range strings.Split(f[4], ",") {
+			ab := strings.Split(t, ":")
+			h := new(big.Int).Sub(uz(ab[0]), uz(ab[1]))
+			h.Mul(h, new(big.Int).ModInverse(Q, P)).Mod(h, P)
+			xs = append(xs, h.Mul(h, Q).Add(h, uz(ab[1])))
+		}
+		return crtCase(f[1], P, Q, xs)
 	case "T":
 		return keyByN(uz(f[2])).textbookCase(f[1], uz(f[3]), uz(f[4]), strings.HasSuffix(f[1], "s"))
 	case "L":
@@ -1867,7 +2277,7 @@ func compare(res *vh.Result, a vh.Args, cases []*testCase, searchOnly bool) {
 func main() {
 	a := vh.ParseArgs()
 	res := vh.NewResult("C16", a.Seed, a.Tier)
-	res.Rule = "Paillier: keys general/Blum/safe at 2048 bits (NewLegacySecretKey floor) and general 3072 (NewSecretKey floor), stored in corpus/c16/keys.txt (all flavours at 3072 in the thorough tier); random register-machine sequences (<= 8 ops quick, <= 30 thorough) of encrypt / op / 3-ary op / scalar / shift / re-randomise / inverse / raw unit, each on the public-key or the secret-key (CRT) path at random, then Decrypt and Open; plaintexts 0, 1, N-1, +-floor(N/2) and neighbours, multiples of p and q; nonces 1, 2, N-1, N-2, random; scalars 0, +-1, +-2, +-N, +-(N+-1), > N, multiples of phi(p^2), +-N^2, lambda; per key a set of wide scalars on both paths and on plaintext / nonce scaling: +-(2^bitlen(N^2)+3), -2^bitlen(N^2), 3N^2+7, -(5N^2+1), N^2+1, 2^(2 bitlen(N^2))+1 plus random picks (all of +-(N-1), +-N, +-(N^2+-1), +-2^bitlen(N), k N^2+small, random 1.5x and 3x bitlen(N^2) in the thorough tier); ElGamal scalars/nonces +-q, +-(q+1), 2^256+-1, q^2, wider than 2 bitlen(q) bits, passed unreduced to the library. Every token is compared model = implementation (corr) and implementation = math/big textbook oracle (prop). Single-operation cases for constructors, symmetric range, plaintext/nonce algebra on both paths, key-size floors. ElGamal on k256, p256, ed25519 prime subgroup, BLS12-381 G1 and G2 through the exponent: model exponents e are checked as g^e == implementation point. One evaluation = one operation token; non-trivial = not refused."
+	res.Rule = "Paillier: keys general/Blum/safe at 2048 bits (NewLegacySecretKey floor) and general 3072 (NewSecretKey floor), stored in corpus/c16/keys.txt (all flavours at 3072 in the thorough tier); random register-machine sequences (<= 8 ops quick, <= 30 thorough) of encrypt / op / 3-ary op / scalar / shift / re-randomise / inverse / raw unit, each on the public-key or the secret-key (CRT) path at random, then Decrypt and Open; plaintexts 0, 1, N-1, +-floor(N/2) and neighbours, multiples of p and q; nonces 1, 2, N-1, N-2, random; scalars 0, +-1, +-2, +-N, +-(N+-1), > N, multiples of phi(p^2), +-N^2, lambda; per key a set of wide scalars on both paths and on plaintext / nonce scaling: +-(2^bitlen(N^2)+3), -2^bitlen(N^2), 3N^2+7, -(5N^2+1), N^2+1, 2^(2 bitlen(N^2))+1 plus random picks (all of +-(N-1), +-N, +-(N^2+-1), +-2^bitlen(N), k N^2+small, random 1.5x and 3x bitlen(N^2) in the thorough tier); ElGamal scalars/nonces +-q, +-(q+1), 2^256+-1, q^2, wider than 2 bitlen(q) bits, passed unreduced to the library. Every token is compared model = implementation (corr) and implementation = math/big textbook oracle (prop). Keys from CALLER-SUPPLIED primes through NewPaillierGroup + NewLegacySecretKey, in both orders (p,q) and (q,p): p ~ 1.99*2^1023 with q ~ 1.40*2^1023, primes either side of sqrt(2)*2^1023, both just above 2^1024, just below 2^1025 with just above 2^1024 (stored in corpus/c16/keys.txt; a 2047-bit product as refusal case): secret-key encryptions, scalings, inversion, re-randomisation, shift, IdentityNoise against the public path, the textbook formula and the model (full treatment in the thorough tier). Lower layers directly (modular.NewOddPrimeSquareFactors / OddPrimeFactors, crt.NewParamsExtended, znstar.NewPaillierGroup known- and unknown-order elements) with small and unbalanced primes (7,5), (13,11), (127,67), (251,181), (251,227), 32/64/256-bit pairs around sqrt(2)*2^(k-1), both orders: Recombine mod N and N^2, ModExp, ModInv, ExpToN, ModMul on exhaustive (small) or random residues incl. the top of the range, and Recombine for arbitrary coprime moduli of different lengths, each = math/big = model. Single-operation cases for constructors, symmetric range, plaintext/nonce algebra on both paths, key-size floors. ElGamal on k256, p256, ed25519 prime subgroup, BLS12-381 G1 and G2 through the exponent: model exponents e are checked as g^e == implementation point. One evaluation = one operation token; non-trivial = not refused."
 
 	var cases []*testCase
 	if a.Replay != "" {
@@ -1892,7 +2302,17 @@ func main() {
 	if thorough {
 		want = append(want, keySpec{"blum", 3072}, keySpec{"safe", 3072})
 	}
+	// keys from caller-supplied primes, in both orders (the CRT code treats p and q asymmetrically)
+	var callerWant []keySpec
+	for _, w := range []keySpec{{"unbal", 2048}, {"sqrt2", 2048}, {"lowlow", 2049}, {"hilow", 2049}} {
+		callerWant = append(callerWant, w, keySpec{w.flavour + "-swap", w.bits})
+	}
+	want = append(want, callerWant...)
+	t0 := time.Now()
+	mark := func(what string) { res.Note("t[%s]=%.1fs", what, time.Since(t0).Seconds()); t0 = time.Now() }
 	keys := loadKeys(want, res)
+	mark("load keys")
+	belowFloor := loadKeys([]keySpec{{"hilow1024", 2047}}, res)[0]
 
 	nseq, maxLen, nsingle, egSeq, egLen := 14, 8, 2, 12, 8
 	if thorough {
@@ -1911,6 +2331,36 @@ func main() {
 		ns := nseq
 		if k.bits >= 3072 && !thorough {
 			ns = nseq / 3
+		}
+		if k.caller {
+			// every CRT recombination modulo N^2 on the secret-key path, against the public path,
+			// the textbook formula and the model
+			var ops []pop
+			for j := 0; j < 6; j++ {
+				ops = append(ops, pop{k: 'e', a: k.genPlain(r), b: k.genNonce(r)})
+			}
+			ops = append(ops, pop{k: 'E', a: big.NewInt(0), b: new(big.Int).Sub(k.N, one)}, pop{k: 'e', a: big.NewInt(0), b: new(big.Int).Sub(k.N, one)},
+				pop{k: 's', i: 0, a: k.genScalar(r, false)}, pop{k: 's', i: 1, a: big.NewInt(-1)}, pop{k: 'i', i: 2}, pop{k: 'r', i: 3, a: k.genNonce(r)},
+				pop{k: 'h', i: 4, a: k.genPlain(r)}, pop{k: 'a', i: 5, j: 6}, pop{k: 'I', i: 2}, pop{k: 'S', i: 1, a: big.NewInt(-1)},
+				pop{k: 'D', i: 8}, pop{k: 'D', i: 10}, pop{k: 'O', i: 11}, pop{k: 'O', i: 0}, pop{k: 'O', i: 13})
+			if !thorough && (strings.HasPrefix(k.flavour, "sqrt2") || strings.HasPrefix(k.flavour, "lowlow")) {
+				// quick tier: a shorter sequence for the nearly balanced pairs
+				ops = []pop{{k: 'e', a: k.genPlain(r), b: k.genNonce(r)}, {k: 'e', a: k.genPlain(r), b: k.genNonce(r)}, {k: 'e', a: big.NewInt(0), b: new(big.Int).Sub(k.N, one)},
+					{k: 's', i: 0, a: big.NewInt(-1)}, {k: 'i', i: 1}, {k: 'r', i: 2, a: k.genNonce(r)}, {k: 'D', i: 3}, {k: 'O', i: 4}, {k: 'O', i: 5}}
+			}
+			cases = append(cases, paillierSeqCase(fmt.Sprintf("%s%d.crt", k.flavour, k.bits), k, ops))
+			nn := 1
+			if thorough {
+				nn = 4
+			}
+			for i := 0; i < nn; i++ {
+				u := k.genNonce(r)
+				cases = append(cases, k.kCase(fmt.Sprintf("%s%d.noise%d", k.flavour, k.bits, i), "noise", u))
+			}
+			if !thorough {
+				continue
+			}
+			ns = nseq / 4
 		}
 		for s := 0; s < ns; s++ {
 			// in the quick tier most sequences use cheap (short) scalars; the big ones are
@@ -2019,8 +2469,21 @@ func main() {
 		foreignCase("foreign.1", kb, k2, big.NewInt(5), big.NewInt(7)),
 		foreignCase("foreign.2", k2, k2, big.NewInt(5), big.NewInt(7)),
 		foreignCase("foreign.3", k2, k3, big.NewInt(0), big.NewInt(1)))
+	cases = append(cases, keyCase("floor.9", 2048, belowFloor.p, belowFloor.q), keyCase("floor.10", 2048, belowFloor.q, belowFloor.p))
+	for i, w := range callerWant {
+		if !thorough && i != 0 && i != 7 { // quick: one accepted pair in each order suffices (the keys above were all built)
+			continue
+		}
+		ck := byKind[w]
+		cases = append(cases, keyCase(fmt.Sprintf("floor.c%d", i), 2048, ck.p, ck.q))
+	}
+	cases = append(cases, keyCase("floor.c3072", 3072, byKind[callerWant[0]].p, byKind[callerWant[0]].q))
 	// small primes far below the floor
 	cases = append(cases, keyCase("floor.8", 2048, big.NewInt(1000003), big.NewInt(1000033)))
+
+	mark("paillier cases")
+	cases = append(cases, lowLevelCases(a.Seed, stream, thorough)...)
+	mark("low-level cases")
 
 	for gi, g := range groups() {
 		r := vh.NewRng(a.Seed, "C16", stream+"/elgamal", gi)
@@ -2062,7 +2525,9 @@ func main() {
 		cases = append(cases, g.algCases("a", r)...)
 	}
 
+	mark("elgamal cases")
 	compare(res, a, cases, a.Search)
+	mark("model driver + compare")
 	var names []string
 	for _, k := range keys {
 		names = append(names, fmt.Sprintf("%s-%d", k.flavour, k.bits))
